@@ -293,18 +293,56 @@ def getters(ctx):
 
 
 def scale_free_cleanup(ctx, rule):
-    """every store into the cell vectors that zeroes "near-zero" components decides nearness on a scale-free quantity: a cell expressed in metres (components ~1e-10)
-    is the same cell as in angstroms and must not be wiped out.  Shared with the properties that read the cell through this setter."""
+    """the cell-vector setter interpreted on concrete cells at three scales (components of order 1, 1e-10 as for a cell in metres, 1e+10): what is stored is what was given,
+    except that components tiny *relative to the largest one* (rotation round-off) become exact zeros; the reciprocal-vector cache is reset.  A cell in metres is the
+    same cell as in angstroms and must survive.  Shared with the properties that read the cell through this setter."""
     st = ctx.fn(BOX, 'Box.vects', setter=True)
+    cls = ctx.fn(BOX, 'Box')
     loc = BOX + '::Box.vects.setter'
-    cl = [s for s in ast.walk(st) if _is_cleanup(s)]
-    for s in cl:
-        arg = s.targets[0].slice.args[0]
-        deg = _degree(arg)
-        atol = kwarg(s.targets[0].slice, 'atol')
-        ctx.ob(rule, loc, 'the near-zero clean-up tests a scale-free quantity (homogeneous of degree 0 in the vectors) against a tolerance ≤ 1e-6',
-               deg == 0 and (atol is None or (isinstance(atol, ast.Constant) and atol.value <= 1e-6)), 'tested quantity %s has degree %s' % (norm(arg), deg), node=s, key='cleanup scale-free')
-    return len(cl)
+    R = sp.Rational
+    base = [[R(3), R(0), R(0)], [R(1, 2), R(4), R(0)], [R(1, 5), R(3, 10), R(5)]]
+    n = 0
+    for stag, sc in (('order one', R(1)), ('1e-10 (a cell in metres)', R(1, 10 ** 10)), ('1e+10', R(10) ** 10)):
+        for ntag, noise, keeps in (('no round-off', None, True), ('a component 1e-12 of the largest (rotation round-off)', R(1, 10 ** 12), False), ('a component 1e-6 of the largest (a real, small tilt)', R(1, 10 ** 6), True)):
+            M = np.array([[x_ * sc for x_ in row] for row in base], dtype=object)
+            want = M.copy()
+            if noise is not None:
+                M[0, 1] = 5 * sc * noise
+                want[0, 1] = M[0, 1] if keeps else R(0)
+            obj = SymObj(cls, {'_Box__vects': arr(sp.eye(3).tolist()), '_Box__origin': arr([0, 0, 0]), '_Box__reciprocal_vects': 'STALE'}, 'self')
+            ev = SymEval(module_aliases(ctx.mod(BOX)))
+            given = M.copy()
+            try:
+                live = [q for q in ev.run_fn(st, [obj, given], {}) if q.done == 'return']
+                why = ''
+            except WouldRaise as e:
+                live, why = [], str(e)
+            except Opaque as e:
+                raise AnalysisError('Box.vects setter (%s, %s): %s' % (stag, ntag, e))
+            got = obj.attrs.get('_Box__vects')
+            ok = len(live) == 1 and got is not None and np.shape(got) == (3, 3) and all(is_zero(sp.nsimplify(x_) - sp.nsimplify(y_)) for x_, y_ in zip(np.ravel(got), np.ravel(want)))
+            n += 1
+            ctx.ob(rule, loc, 'components of %s, %s: the vectors are stored as given%s' % (stag, ntag, '' if keeps else ' with the round-off component set to exactly zero'), bool(ok),
+                   why or 'stored %s' % (None if got is None else [str(x_) for x_ in np.ravel(got)],), node=st, key='setter %s %s' % (stag, ntag[:30]))
+            if noise is None:
+                ctx.ob(rule, loc, 'components of %s: the reciprocal-vector cache is reset and the caller\'s array is left as it was' % stag,
+                       obj.attrs.get('_Box__reciprocal_vects') is None and equal(given, M, deep=False), node=st, key='setter cache %s' % stag)
+    # the reciprocal cache is reset whenever the vectors are set, however little they changed and whatever their scale (a nearly equal cell is another cell)
+    for tag, oldM, newM in (('a cell stretched by one part in ten million', [[x_ for x_ in row] for row in base], [[x_ * (1 + R(1, 10 ** 7)) for x_ in row] for row in base]),
+                            ('a cell in metres doubled in size', [[x_ * R(1, 10 ** 10) for x_ in row] for row in base], [[x_ * R(2, 10 ** 10) for x_ in row] for row in base])):
+        obj = SymObj(cls, {'_Box__vects': np.array(oldM, dtype=object), '_Box__origin': arr([0, 0, 0]), '_Box__reciprocal_vects': 'STALE'}, 'self')
+        ev = SymEval(module_aliases(ctx.mod(BOX)))
+        try:
+            live = [q for q in ev.run_fn(st, [obj, np.array(newM, dtype=object)], {}) if q.done == 'return']
+        except WouldRaise as e:
+            live = []
+        except Opaque as e:
+            raise AnalysisError('Box.vects setter (%s): %s' % (tag, e))
+        got = obj.attrs.get('_Box__vects')
+        ok = len(live) == 1 and obj.attrs.get('_Box__reciprocal_vects') is None and got is not None and all(is_zero(sp.nsimplify(x_) - y_) for x_, y_ in zip(np.ravel(got), np.ravel(np.array(newM, dtype=object))))
+        n += 1
+        ctx.ob(rule, loc, '%s: the new vectors are stored and the reciprocal-vector cache is reset' % tag, bool(ok), 'cache after setting: %r' % (obj.attrs.get('_Box__reciprocal_vects'),), node=st, key='setter reset ' + tag[:30])
+    return n
 
 
 def cache(ctx):
@@ -326,17 +364,7 @@ def cache(ctx):
                     writers.setdefault(q, []).append(s)
     ctx.ob('CACHE', BOX + '::Box', 'the stored cell vectors are written only by the constructor and the vects setter', set(writers) == {'__init__', 'vects.setter'},
            'writers: %s' % sorted(writers), key='writers')
-    st = ctx.fn(BOX, 'Box.vects', setter=True)
-    loc = BOX + '::Box.vects.setter'
-    resets = [s for s in st.body if isinstance(s, ast.Assign) and norm(s.targets[0]) == 'self.__reciprocal_vects' and norm(s.value) == 'None']
-    lastw = max([s.lineno for s in writers.get('vects.setter', [])] or [0])
-    ctx.ob('CACHE', loc, 'every path through the setter resets the reciprocal cache after the last write (unconditional top-level statement)',
-           len(resets) >= 1 and resets[-1].lineno > lastw, 'top-level resets: %d' % len(resets), node=st, key='reset unconditional')
     scale_free_cleanup(ctx, 'CACHE')
-    # other stores into the vectors inside the setter must be the plain assignment of the value
-    others = [s for s in writers.get('vects.setter', []) if not _is_cleanup(s)]
-    ctx.ob('CACHE', loc, 'the setter stores the given value unchanged', len(others) == 1 and norm(others[0].value) == 'value' and norm(others[0].targets[0]) == 'self.__vects[:]',
-           '; '.join(norm(s) for s in others), node=st, key='plain store')
     # reciprocal vectors dual to vects
     ev, cls_, shape, plane, va = _env(ctx)
     V = symarray('v', (3, 3), real=True)
